@@ -19,7 +19,7 @@ from gherkin.token_formatter_builder import TokenFormatterBuilder
 from gherkin.token_matcher import TokenMatcher
 from gherkin.token_scanner import TokenScanner
 
-__all__ = [n for n in dir() if not n.startswith("_")]
+__all__ = [n for n in dir() if not n.startswith("_")] + ["pickle_clone"]
 
 
 def names_existing_path(text: str) -> bool:
@@ -76,3 +76,14 @@ def language_table_problem():
                 if live.get(d, {}).get(c) != master[d][c]:
                     return "dialect %s, %s keywords are now %r (table says %r)" % (d, c, live.get(d, {}).get(c), master[d][c])
     return "language table changed"
+
+
+def pickle_clone(obj):
+    """pickle round trip; an object that cannot be pickled at all (it holds a lock, a file, a local function) is returned as it is - being
+    picklable is promised nowhere; a copy that CAN be made must behave like the original"""
+    import pickle
+    try:
+        data = pickle.dumps(obj)
+    except (pickle.PicklingError, TypeError, AttributeError):
+        return obj
+    return pickle.loads(data)
